@@ -6,6 +6,8 @@ import (
 	"fmt"
 	"math"
 	"math/rand/v2"
+	"runtime"
+	"strings"
 	"sync/atomic"
 	"testing"
 	"testing/synctest"
@@ -425,7 +427,6 @@ func twoWaiters(t *testing.T, idx int64, r *rand.Rand, kindIdx int) {
 	rt.Distinct(fmt.Sprintf("two|%s|%v|%v|%v", k, a, rel, cancelAt))
 }
 
-
 // farDeadline: deadline limiters whose deadline is an "effectively never" instant (beyond what fits into 64-bit
 // nanoseconds since 1970).  Such a deadline is a bound like any other: free capacity is granted, a blocked call
 // does not return before its context ends or capacity is offered, and then returns at that instant.
@@ -529,6 +530,88 @@ func farDeadline(t *testing.T, idx int64, r *rand.Rand) {
 	rt.Distinct(fmt.Sprintf("far|%s|%v|%s|%v", names[which], exhausted, end, wait))
 }
 
+// releaseInProgress (real time): a holder's completion is in progress - the delegate's listener is slow to give the unit
+// back - when another caller arrives at the exhausted blocking / deadline limiter; that caller's context is then
+// cancelled (blocking) or the limiter's deadline passes (deadline).  Its bound holds regardless of the completion in
+// progress: it returns (refused) while the slow release is still waiting for it.  The slow release waits for the
+// caller's return for at most 5 s; only a caller found blocked on a mutex inside the limiter at that point is a
+// violation, anything else is inconclusive.
+func releaseInProgress(idx int64, r *rand.Rand) {
+	family := []string{"blocking-timeout0", "blocking-timeoutT", "deadline"}[r.IntN(3)]
+	dl, err := limiter.NewDefaultLimiter(limit.NewFixedLimit("c13", 1, nil), 1e9, 1e9, 1e5, 100, strategy.NewSimpleStrategy(1), limit.NoopLimitLogger{}, core.EmptyMetricRegistryInstance)
+	if err != nil {
+		panic(err)
+	}
+	gate := inject.NewGate(dl)
+	var armed atomic.Bool
+	inRelease, callerDone := make(chan struct{}), make(chan struct{})
+	gate.BeforeInnerRelease = func(string) {
+		if armed.CompareAndSwap(true, false) {
+			close(inRelease)
+			select {
+			case <-callerDone:
+			case <-time.After(5 * time.Second):
+			}
+		}
+	}
+	var lim core.Limiter
+	switch family {
+	case "blocking-timeout0":
+		lim = limiter.NewBlockingLimiter(gate, 0, nil)
+	case "blocking-timeoutT":
+		lim = limiter.NewBlockingLimiter(gate, time.Hour, nil)
+	default:
+		lim = limiter.NewDeadlineLimiter(gate, time.Now().Add(30*time.Millisecond), nil)
+	}
+	holder, ok := lim.Acquire(context.Background())
+	if !ok {
+		rt.Inconclusive("C13 release-in-progress: first unit refused")
+		return
+	}
+	armed.Store(true)
+	relDone := make(chan struct{})
+	go func() { holder.OnSuccess(); close(relDone) }()
+	<-inRelease
+	ctx, cancel := context.WithCancel(context.Background())
+	var gotOK bool
+	go func() {
+		l, ok := lim.Acquire(ctx)
+		gotOK = ok
+		if l != nil {
+			l.OnIgnore()
+		}
+		close(callerDone)
+	}()
+	time.Sleep(time.Duration(1+r.IntN(3)) * time.Millisecond)
+	if family != "deadline" {
+		cancel()
+	}
+	stuck := false
+	select {
+	case <-callerDone:
+	case <-time.After(4 * time.Second):
+		buf := make([]byte, 1<<20)
+		dump := string(buf[:runtime.Stack(buf, true)])
+		stuck = strings.Contains(dump, "go-concurrency-limits/limiter.subscribe") && strings.Contains(dump, "sync.(*Mutex).Lock")
+		if !stuck {
+			rt.Inconclusive("C13 release-in-progress: caller did not return in 4 s without being blocked on a limiter mutex")
+		}
+	}
+	<-relDone
+	cancel()
+	<-callerDone
+	rt.Count("release_in_progress_cases", 1)
+	if stuck {
+		rt.Violation("C13/"+family+"/caller-held-past-its-bound-by-a-completion-in-progress", idx, rt.J{"family": family,
+			"meaning": "the caller's context ended / the deadline passed while another caller's completion was in progress; it was found blocked on a mutex inside the limiter's subscribe and returned only after that completion finished"})
+		return
+	}
+	if gotOK && family != "deadline" {
+		// the unit was not back yet when the context ended: a grant is only possible after the release finished
+	}
+	rt.Distinct(fmt.Sprintf("rip|%s|%d", family, idx%7))
+}
+
 // spawnCancelled starts a caller whose context is cancelled before Acquire is called.
 func spawnCancelled(w *blk.World) *blk.Waiter {
 	wt := w.SpawnWith(func(ctx context.Context, cancel context.CancelFunc) { cancel() })
@@ -564,6 +647,10 @@ func TestCheck(t *testing.T) {
 		}
 		if idx%45 == 7 {
 			farDeadline(t, idx, r)
+			return
+		}
+		if idx%90 == 25 {
+			releaseInProgress(idx, r)
 			return
 		}
 		c := cells[int(idx)%len(cells)]
